@@ -1,6 +1,7 @@
 import YV.Drv.T
 import YV.Spec.YPathS
 import YV.Spec.YDataS
+import YV.Proofs.YIdem
 namespace YV.Drv.S
 open Lean YV YV.Y YV.T YV.TS YV.SC YV.SS YV.Drv YV.Drv.T
 
@@ -102,7 +103,9 @@ def handleData (j : Json) : List (String × Json) :=
   | none => [("m", "compile-err"), ("s", "compile-err")]
   | some top =>
     let root := loadDN (jobj j "data")
-    let m := showData top root (validateData top root) (decorate top root) (decorate top (decorate top root))
+    -- the hypothesis of C18_defaults_in_use / C18_idempotent, checked on every schema the stream feeds
+    let wf := if DS.wfTop top then "" else "SCHEMA-NOT-WELL-FORMED\n"
+    let m := wf ++ showData top root (validateData top root) (decorate top root) (decorate top (decorate top root))
     let s := showData top root (violations top root) (decorateS top root) (decorateS top (decorateS top root))
     [("m", m), ("s", s)]
 
